@@ -38,7 +38,7 @@ fn max_len(tier: Tier) -> usize {
 }
 
 fn info(tier: Tier) -> CheckInfo {
-    CheckInfo {
+    let mut ci = CheckInfo {
         id: "C16",
         level: "exploration",
         rule: format!(
@@ -49,7 +49,9 @@ fn info(tier: Tier) -> CheckInfo {
             "items delivered by the actor are authentic (C02's business); the fold only sees seq and value".into(),
             "flume channels are FIFO".into(),
         ],
-    }
+    };
+    ci.rule.push_str(" Added: the live part with one or two earlier callers that take one item and drop their stream, and through the blocking Dht API.");
+    ci
 }
 
 fn items() -> Vec<MutableItem> {
